@@ -6,6 +6,25 @@ BASELINE_OFF = ("cd /repo && /venv/bin/python -m pytest -ra -q -p no:cacheprovid
 TECH = "sidecar contracts on the real functions + AST->SMT VC generation (pyvc), discharged by z3/cvc5; native replay"
 
 CLAIMED = {
+    "C07": dict(
+        text="Every lifecycle function of core/mode.py (start, _started, _mode_started_callback, stop, _stopped, "
+             "_mode_stopped_callback, add_mode_event_handler, the three _remove_* functions, the active setter) is "
+             "verified against a typestate over the real flags plus ghost registries: each transition is accepted "
+             "only from its source state and posts exactly its events, in order, with the right completion callback "
+             "(will_start, starting(queue) -> _started; events_when_started, started -> _mode_started_callback; "
+             "will_stop, stopping(queue) -> _stopped; events_when_stopped, stopped -> _mode_stopped_callback, "
+             "clear); stop removes every switch handler and clears the delays; _stopped runs every stop method once "
+             "and releases a held wait queue; after _mode_stopped_callback every handler key registered through the "
+             "mode is removed from the event manager, every device told it was removed, every stop callback ran "
+             "once, and the registries are empty. ModeController.set_mode_state: active_modes = old +/- mode, sorted "
+             "by (priority, name) descending.",
+        note="All functions that iterate a registry are BOUNDED (registries / configured event lists of <= 2 entries; "
+             "<= 1 mode already active) and not counted as proved; the typestate and event-order clauses do not "
+             "depend on the bound. Known finding F-C07-a (start accepted while clean-up is pending). Trusted: event "
+             "manager / switch controller / delay manager client contracts (C01, C03, C13), user hooks, "
+             "_add_mode_devices and _setup_device_control_events are opaque; liveness of the queue events is not "
+             "decided; registrations made outside the mode's registries are A-RELY.",
+        ref="4.C07"),
     "C08": dict(
         text="Every function of mpf/devices/driver.py that can reach the platform driver is verified, for all "
              "inputs and configurations, against the preconditions of hw_driver.pulse/enable/timed_enable, which are "
